@@ -117,8 +117,8 @@ def run(spec, cx):
         val = val * 16 + dig
     src = SK.render(prog) + "\n"
     if "?" in src:
-        # symbolic characters of the source text (anything but quote, backslash and newline)
-        dom = [c for c in range(256) if c not in (10, 0x27, 0x5C)]
+        # symbolic characters of the source text (any ASCII character but quote, backslash and newline)
+        dom = [c for c in range(128) if c not in (10, 0x27, 0x5C)]   # ASCII: one emitted byte per character
         chars = [cx.char(f"s{i}", dom) if ch == "?" else ord(ch) for i, ch in enumerate(src)]
         src = cx.string(chars)
     # reference: the in-memory API under the same mapping with v as a constant
